@@ -31,7 +31,7 @@ Definition chunk_range_legacy (cr : bytes) (cl : Z) : chunk_range_result :=
   match parsed with
   | None => CRBadRange
   | Some (start, end0, rangeOK) =>
-      if rangeOK && (cl >=? 0) && negb (end0 - start =? cl) then CRBadLength (end0 - start)
+      if rangeOK && (cl >=? 0) && negb (wrap64 (end0 - start) =? cl) then CRBadLength (wrap64 (end0 - start))
       else
         let end2 := if negb rangeOK && (cl >=? 0) then cl else end0 in
         CROk start end2
